@@ -142,6 +142,79 @@ def write_refusal(ctx, case, cfgd, cfg, T, rng):
                       case_detail(case, cfg=cfgd, field=f["name"], declared=n, given=len(wrong), dump=d))
 
 
+def big_operand_lengths(ctx):
+    """Length expressions are integer arithmetic also when an operand is larger than a double holds exactly."""
+    text = ("#define UNIT 0x40000000000000\nstruct T { uint64 total; uint8 data[total / UNIT]; uint8 tail; };\n"
+            "struct M { uint64 total; uint8 data[total % 0x20000000000001]; uint8 tail; };\n"
+            "struct S { uint64 total; uint16 data[(total >> 54) + (total / 0x7FFFFFFFFFFFFFFF)]; uint8 tail; };")
+    for compiled in (True, False):
+        for endian in "<>":
+            ctx.evaluation(("big-operand-lengths", compiled, endian))
+            ctx.cell("length-expressions-with-operands-beyond-2^53")
+            det = {"text": text, "compiled": compiled, "endian": endian, "workload": "big-operand-lengths"}
+            bo = "little" if endian == "<" else "big"
+            try:
+                cs = lib.load(text, endian, False, compiled)
+                got, want = [], []
+                for name, total, n, esize in (("T", 0xBFFFFFFFFFFFFF, 2, 1), ("T", 0xC0000000000000, 3, 1), ("T", (1 << 62) + 2, 256, 1),
+                                              ("M", 0x20000000000001 * 3 + 2, 2, 1), ("M", 0x20000000000001 * 5, 0, 1),
+                                              ("S", 0x7FFFFFFFFFFFFFFE, 511, 2), ("S", 0x7FFFFFFFFFFFFFFF, 512, 2)):
+                    body = bytes((7 * i + 1) & 0xFF for i in range(n * esize))
+                    data = total.to_bytes(8, bo) + body + b"\x7e" + b"\xee" * 3
+                    o = getattr(cs, name)(data)
+                    got.append((name, len(o.data), int(o.tail), o.dumps() == data[:8 + n * esize + 1]))
+                    want.append((name, n, 0x7E, True))
+            except Exception as e:  # noqa: BLE001
+                ctx.violation("value", f"big-operand-length-raises:{type(e).__name__}", dict(det, error=lib.exc_sig(e)))
+                continue
+            if got != want:
+                ctx.violation("value", "length-expression-with-a-large-operand-is-not-integer-arithmetic", dict(det, got=repr(got), want=repr(want)))
+            else:
+                ctx.event("big_operand_lengths_checked")
+
+
+def ragged_rows(ctx):
+    """A multi-dimensional array whose dimensions are all fixed takes rows of exactly the declared lengths: rows of
+    other lengths are refused also when the total number of cells happens to be right (through a field and through
+    the type made by the API, both readers, integer / wide / structure / enum elements)."""
+    text = ("enum E : uint8 { A, B };\nstruct P { uint8 a; uint8 b; };\n"
+            "struct T { uint8 cells[2][3]; uint16 cube[2][2][2]; int24 wide[2][2]; P pts[2][2]; E es[3][2]; uint8 t; };")
+    for compiled in (True, False):
+        cs = lib.load(text, "<", False, compiled)
+        P, E = cs.P, cs.E
+        good = {"cells": [[1, 2, 3], [4, 5, 6]], "cube": [[[1, 2], [3, 4]], [[5, 6], [7, 8]]], "wide": [[1, 2], [3, 4]],
+                "pts": [[P(a=1, b=2), P(a=3, b=4)], [P(a=5, b=6), P(a=7, b=8)]], "es": [[E.A, E.B], [E.B, E.A], [E.A, E.A]]}
+        ragged = {"cells": [[[1, 2, 3, 4], [5, 6]], [[1, 2, 3, 4, 5, 6], []], [[1], [2, 3, 4, 5, 6]]],
+                  "cube": [[[[1, 2, 3], [4]], [[5, 6], [7, 8]]], [[[1, 2], [3, 4], [5, 6], [7, 8]], []]],
+                  "wide": [[[1, 2, 3], [4]], [[1, 2, 3, 4], []]],
+                  "pts": [[[P(a=1, b=2), P(a=3, b=4), P(a=5, b=6)], [P(a=7, b=8)]]],
+                  "es": [[[E.A, E.B, E.B], [E.A], [E.A, E.A]], [[E.A] * 6, [], []]]}
+        for name, variants in ragged.items():
+            for bad in variants:
+                ctx.evaluation(("ragged-rows", compiled, name, repr(bad)[:80]))
+                ctx.cell("ragged-rows-with-the-right-total")
+                for how in ("field", "type"):
+                    try:
+                        if how == "field":
+                            d = cs.T(**dict(good, **{name: bad}), t=9).dumps()
+                        else:
+                            d = cs.T.fields[name].type.dumps(bad)
+                    except Exception:  # noqa: BLE001
+                        ctx.event("ragged_rows_refused")
+                        continue
+                    ctx.violation("write-refusal", "fixed-array-with-wrong-count-dumped",
+                                  {"text": text, "compiled": compiled, "field": name, "how": how, "given": repr(bad)[:200],
+                                   "dump": d.hex(), "workload": "ragged-rows"})
+        # (the well-shaped values are written)
+        try:
+            ok = cs.T(**good, t=9).dumps()
+            if len(ok) != len(cs.T) or cs.T(ok) != cs.T(**good, t=9):
+                raise ValueError("well-shaped value does not round-trip")
+        except Exception as e:  # noqa: BLE001
+            ctx.violation("write-refusal", f"well-shaped-multi-dimensional-value-refused:{type(e).__name__}",
+                          {"text": text, "compiled": compiled, "error": lib.exc_sig(e), "workload": "ragged-rows"})
+
+
 def judge_all(ctx, case, rng, matrix_cell=None):
     top = case["top"]
     for cfgd in engine.std_configs(rng, ctx.thorough, top):
@@ -420,6 +493,8 @@ def run(ctx):
         direct_use(ctx, ctx.rng("direct"))
         shadowing(ctx)
         folded_length_source(ctx)
+        ragged_rows(ctx)
+        big_operand_lengths(ctx)
         enum_counts(ctx)
         void_arrays(ctx)
     # the element kind x length form matrix, every cell on every run
